@@ -114,7 +114,8 @@ def generate(R, tier, focus):
         elif x < 0.42:
             # the live catalog object is changed in place between round trips (optionally after its dict form was built)
             ci = R.randrange(len(cats))
-            how = 'spatial' if (cats[ci]['mixed'] or cats[ci]['with_region']) and R.random() < 0.6 else 'filter'
+            how = 'spatial' if (cats[ci]['mixed'] or cats[ci]['with_region']) and R.random() < 0.6 else \
+                R.choice(('filter', 'filter', 'filter_copy'))
             thr = R.choice([e[5] for e in cats[ci]['events']] or [5.0])
             ops.append({'op': 'MUTATE', 'cat': ci, 'how': how, 'stmt': 'magnitude %s %r' % (R.choice(('>=', '<', '>')), thr),
                         'warm': R.choice(('none', 'to_dict', 'write_json', 'to_dataframe'))})
@@ -127,7 +128,8 @@ def generate(R, tier, focus):
                 chain.append(R.choice(FORMATS))                 # RESAVE: second / third generation
             ops.append({'op': 'ROUNDTRIP', 'cat': R.randrange(len(cats)), 'chain': chain,
                         'header': R.random() < 0.7, 'append_new': R.random() < 0.2,
-                        'with_datetime': R.random() < 0.3, 'remake': R.random() < 0.5})
+                        'with_datetime': R.random() < 0.3, 'remake': R.random() < 0.5,
+                        'df_cols': R.choice((0, 0, R.randint(1, 10 ** 6)))})
         else:
             ops.append({'op': 'OVERWRITE', 'first': R.randrange(len(cats)), 'second': R.randrange(len(cats)),
                         'fmt': R.choice(('ascii', 'json'))})
@@ -267,7 +269,10 @@ def _execute14(scn, ctx, store, clock):
                 call(c.write_json, store.path('warm_%d.json' % n_files))
             elif op['warm'] == 'to_dataframe' and (getattr(c, 'region', None) is None or not scn['cats'][ci].get('mixed')):
                 call(c.to_dataframe)
-            if op['how'] == 'filter':
+            if op['how'] == 'filter_copy':
+                # a filtered copy is taken and dropped; the original keeps all its events (and must round-trip them)
+                r = call(c.filter, op['stmt'], in_place=False)
+            elif op['how'] == 'filter':
                 r = call(c.filter, op['stmt'])
                 name, oper, val = op['stmt'].split(' ')
                 cur_events[ci] = [e for e in cur_events[ci] if cmp[oper](float(e[5]), float(val))]
@@ -417,7 +422,13 @@ def _execute14(scn, ctx, store, clock):
             else:
                 r = call(cat.to_dataframe, with_datetime=op['with_datetime'])
                 if r[0] == 'ok':
-                    r = call(CSEPCatalog.from_dataframe, r[1])
+                    df_ = r[1]
+                    if op.get('df_cols'):
+                        # columns are addressed by label: their order in the caller's frame is a delivery detail
+                        cols_ = list(df_.columns)
+                        random.Random(op['df_cols']).shuffle(cols_)
+                        df_ = df_[cols_]
+                    r = call(CSEPCatalog.from_dataframe, df_)
             if r[0] != 'ok':
                 ctx.violate('C14', 'exception', '%s:%s%s' % (fmt, r[1], ':empty' if empty else ''),
                             {'op': oi, 'chain': label, 'msg': r[2], 'n': len(want)})
